@@ -185,12 +185,19 @@ impl<'a> Gen<'a> {
 }
 
 pub fn generate(run_seed: u64) -> Scenario {
+    generate_class(run_seed, None)
+}
+
+/// As `generate`, with the scenario class forced (used by C01 for its
+/// concurrent-callers class, which borrows the interleaved workload).
+pub fn generate_class(run_seed: u64, force_class: Option<usize>) -> Scenario {
     let mut wl = Rng::stream(run_seed, 1);
     let mut fr = Rng::stream(run_seed, 2);
     let mut sr = Rng::stream(run_seed, 3);
     let mut er = Rng::stream(run_seed, 4);
 
     let class = wl.weighted(&[40, 30, 30]);
+    let class = force_class.unwrap_or(class);
     let class_name = ["delivery", "history", "interleaved"][class];
 
     // --- document
